@@ -585,6 +585,111 @@ def run_c10(tier):
     return finish("C10", tier, t0, spec, totals, [], problems, [{"frequency_rows": table[:6]}], known, extra_cov=extra)
 
 
+def binom_cdf(x, n, p):
+    """P(X <= x) for X ~ Binomial(n, p), summed in log space."""
+    import math
+    if p <= 0:
+        return 1.0
+    if p >= 1:
+        return 1.0 if x >= n else 0.0
+    lp, lq = math.log(p), math.log(1 - p)
+    tot = 0.0
+    for i in range(0, x + 1):
+        lg = math.lgamma(n + 1) - math.lgamma(i + 1) - math.lgamma(n - i + 1) + i * lp + (n - i) * lq
+        tot += math.exp(lg)
+        if tot > 1:
+            return 1.0
+    return tot
+
+
+def run_c11(tier):
+    """PCT: decision logs validated with hidden priorities/change points inferred by TLC; iteration
+    counts and seed determinism; hit rate of depth-d bugs against the 1/(n k^(d-1)) bound."""
+    import math
+    import corpus
+    t0 = time.time()
+    vlib.build_harness()
+    known = vlib.load_known()
+    n = 5 if tier == "quick" else 40
+    iters = 20 if tier == "quick" else 60
+    progs = []
+    for fam in ("kernel", "mutex", "condvar", "park", "mpsc"):
+        for p in gen.family(fam, n, vlib.seed()):
+            p = dict(p)
+            if len(p["tasks"]) < 2:
+                continue
+            p["id"] = len(progs) + 1
+            progs.append(p)
+    bugs = {}
+    for bp, bug, d in corpus.pct_bugs():
+        bp = dict(bp)
+        bp["id"] = len(progs) + 1
+        progs.append(bp)
+        bugs[str(bp["id"])] = {"bug": bug, "depth": d, "iters": 100000 if tier == "quick" else 1000000}
+    out = os.path.join(vlib.WORK, f"run-c11-{tier}")
+    os.makedirs(out, exist_ok=True)
+    bfile = os.path.join(vlib.WORK, f"c11-bugs-{tier}.json")
+    json.dump(bugs, open(bfile, "w"))
+    meta, _ = vlib.run_enum(progs, out, cap=100, extra=("--mode", "pct", "--iters", str(iters), "--seed", str(vlib.seed()), "--bugs", bfile))
+    by_id = {p["id"]: p for p in progs}
+    problems = []
+    nexec = 0
+    bugrep = []
+    for m in meta:
+        if m.get("crashed"):
+            problems.append({"kind": "harness-crash", "prog": by_id[m["prog"]], "stderr": m["stderr"], "sig": "pct/harness-crash"})
+            continue
+        if m.get("bugrun"):
+            nexec += m["execs"]
+            nn, k, d = m["n"], max(m["k"], 1), m["depth"]
+            bound = 1.0 / (nn * (k ** (d - 1)))
+            rate = m["hits"] / max(1, m["iterations"])
+            # exact lower binomial tail: P(X <= hits) if every iteration hit with probability `bound`
+            tail = binom_cdf(m["hits"], m["iterations"], bound)
+            bugrep.append({"program": m["prog"], "depth": d, "n": nn, "k": k, "bound": round(bound, 6), "hit_rate": round(rate, 6),
+                           "iterations": m["iterations"], "p_value_if_at_bound": tail})
+            if tail < 1e-9:
+                problems.append({"kind": "pct", "prog": by_id[m["prog"]], "detail": bugrep[-1], "sig": f"pct/hit-rate-below-bound/d{d}"})
+            if m["execs"] != bugs[str(m["prog"])]["iters"]:
+                problems.append({"kind": "pct", "prog": by_id[m["prog"]], "detail": {"execs": m["execs"]}, "sig": "pct/iteration-count"})
+            continue
+        for r in m["runs"]:
+            nexec += r["execs"]
+            if not r["same_seed_same_run"]:
+                problems.append({"kind": "pct", "prog": by_id[m["prog"]], "detail": r, "sig": "pct/same-seed-different-run"})
+            if r["execs"] != iters:
+                problems.append({"kind": "pct", "prog": by_id[m["prog"]], "detail": r, "sig": "pct/iteration-count"})
+    logf = os.path.join(out, "pctlog.ndjson")
+    nlines = 0
+    with open(logf, "w") as o:
+        for i in range(len(progs)):
+            pth = os.path.join(out, f"p{i}.pctlog")
+            if os.path.exists(pth):
+                for line in open(pth):
+                    o.write(line)
+                    nlines += 1
+    res = vlib.run_tlc("TracePct", "TracePct.cfg", {"PCTLOG": logf}, out, workers=1, timeout=1500, dfs=True)
+    acc = [int(x) for x in vlib.tlc_lines(res["out"], "PCTLOG-ACCEPTED")]
+    if not acc or acc[0] != nlines:
+        problems.append({"kind": "trace-rejected", "where": "TracePct", "detail": {"log_lines": nlines, "states": res["states"],
+                         "errors": res["errors"][:3]}, "sig": "pct/decision-log-rejected"})
+    # drill: the same log claimed to be depth 1 must be rejected (no change points allowed)
+    drill = os.path.join(out, "pctlog-drill.ndjson")
+    with open(drill, "w") as o:
+        for line in open(logf):
+            o.write(line.replace('"depth":3', '"depth":1').replace('"depth":2', '"depth":1'))
+    dres = vlib.run_tlc("TracePct", "TracePct.cfg", {"PCTLOG": drill}, vlib.fresh_dir(os.path.join(out, "drill")), workers=1, timeout=900, dfs=True)
+    dacc = [int(x) for x in vlib.tlc_lines(dres["out"], "PCTLOG-ACCEPTED")]
+    totals = {"trace_states": res["states"] + dres["states"], "trace_transitions": res["transitions"] + dres["transitions"],
+              "leaves_reached": nexec, "programs": len(progs)}
+    extra = {"pct_executions": nexec, "decision_log_lines": nlines, "bug_hit_rates": bugrep,
+             "drill_depth1_claim_rejected": not dacc, "exhaustive": False,
+             "checker_cmd": "tlc -config TracePct.cfg TracePct.tla (depth-first queue)"}
+    spec = {"assume": ["task ids < 16 (the shuffled part of the priority map); the insertion path for more tasks is not exercised",
+                       "detection probability on the implementation is a fixed-seed measurement against the 1/(n k^(d-1)) bound"]}
+    return finish("C11", tier, t0, spec, totals, [], problems, bugrep[:3] or [{"note": "no bug runs"}], known, extra_cov=extra)
+
+
 def run_lemmas(pid, problems):
     """Model-only checks (binding D) attached to a property; returns (states, transitions, report)."""
     st = tr = 0
@@ -626,6 +731,8 @@ def run_property(pid, tier):
         return run_c09(tier)
     if pid == "C10":
         return run_c10(tier)
+    if pid == "C11":
+        return run_c11(tier)
     if pid not in SHUTTLE_PROPS:
         raise vlib.ToolError(f"no check registered for {pid}")
     t0 = time.time()
